@@ -569,7 +569,7 @@ func (t *test) Test11(ctx context.Context, c orgvarlinkcertification.VarlinkCall
 	}
 
 	for i := 1; i <= 10; i++ {
-		if last_more_replies_[i] != "Reply number "+strconv.Itoa(i) {
+		if last_more_replies_[i-1] != "Reply number "+strconv.Itoa(i) {
 			return c.ReplyCertificationError(ctx, nil, nil)
 		}
 	}
